@@ -21,6 +21,7 @@ def run(tier):
         table, behs = syntax.generate(check, family, num=n, seed=core.seed() + 2, depth=3)
         vers = progs.VERS[family] if tier == "thorough" else progs.VERS[family][:2]
         res = progs.run_programs(check, wp, family, behs, table, core.seed(), layouts, vers)
+        res += progs.halt_programs(check, wp, family, core.seed(), layouts, vers, num=40 if tier == "quick" else 300)
         for m, t, r in res:
             check.count()
             check.distinct((family, m["i"], m["layout"], m["ver"]))
